@@ -119,8 +119,8 @@ var boundaryVals = []uint64{0, 1, 0x7f, 0x80, 1<<31 - 1, 1 << 31, 1<<32 - 1, 1 <
 
 // hostileVarints are byte strings that are not valid minimal varints.
 var hostileVarints = [][]byte{
-	{0x80},             // unterminated
-	{0x80, 0x00},       // overlong zero
+	{0x80},       // unterminated
+	{0x80, 0x00}, // overlong zero
 	{0xff, 0xff, 0xff, 0xff, 0xff, 0xff, 0xff, 0xff, 0xff, 0x01}, // 2^64-1
 	{0xff, 0xff, 0xff, 0xff, 0xff, 0xff, 0xff, 0xff, 0xff, 0x02}, // out of range in the 10th byte
 	{0xff, 0xff, 0xff, 0xff, 0xff, 0xff, 0xff, 0xff, 0xff, 0x7f},
@@ -179,7 +179,7 @@ func lengthLies(m []byte, emit func(mutant)) {
 			}
 			for _, e := range encl { // innermost first; inner positions are to the right of outer prefixes, so go inner -> outer
 				l := uint64(e.payEnd - e.valEnd)
-				out = splice(out, e.valStart, e.valEnd, fixedWidth(l+d, e.valEnd-e.valStart))
+				out = splice(out, e.valStart, e.valEnd, putUvarint(l+d))
 			}
 			emit(mutant{out, "nested-len-grow-all"})
 		}
@@ -234,13 +234,6 @@ func nestedPrefixes(m []byte, emit func(mutant)) {
 			emit(mutant{out, ifs(afterKey[cut], "nested-cut-after-key", "nested-prefix")})
 		}
 	}
-}
-
-// fixedWidth encodes v in exactly w bytes if it fits canonically, otherwise canonically (positions then shift, which
-// is harmless for a mutant).
-func fixedWidth(v uint64, w int) []byte {
-	b := putUvarint(v)
-	return b
 }
 
 // keyRewrites: wire type and field number of every key rewritten.
